@@ -198,18 +198,18 @@ impl PathSliceList {
                 write!(w, r#":"#)?;
                 false_br.write_lvalue_path(w, scopes, model)?;
             } else {
-                write!(w, r#"{}?"#, cond)?;
+                // (the branch may itself be a conditional: `.concat` must apply to its result)
+                write!(w, r#"{}?("#, cond)?;
                 if true_br.write_lvalue_path(w, scopes, model)?.is_some() {
-                    write!(w, r#".concat("#)?;
+                    write!(w, r#").concat("#)?;
                     br(w)?;
-                    write!(w, r#")"#)?;
                 }
-                write!(w, r#":"#)?;
+                write!(w, r#"):("#)?;
                 if false_br.write_lvalue_path(w, scopes, model)?.is_some() {
-                    write!(w, r#".concat("#)?;
+                    write!(w, r#").concat("#)?;
                     br(w)?;
-                    write!(w, r#")"#)?;
                 }
+                write!(w, r#")"#)?;
             }
         } else {
             br(w)?;
